@@ -31,11 +31,19 @@ const MAX_EXPRESSION_NESTING: usize = 32;
 /// Longest run of prefix operators ("!!!!x", "----x"), parsed recursively too.
 const MAX_PREFIX_RUN: usize = 256;
 
+/// Most binary operators (`||`, `&&`, the relations, `+ - * / %`) in one
+/// expression. Operators of equal precedence build a left-leaning tree that is
+/// one level deeper per operator, and the syntax tree is cloned, printed and
+/// dropped recursively: without a bound a long flat chain ("1+1+1+...") exhausts
+/// the stack when its program (or a context holding it) is cloned or dropped.
+const MAX_BINARY_OPERATORS: usize = 1024;
+
 thread_local! {
     // Per thread rather than per compiler: the segments of an f-string are
     // compiled by a nested compiler and count towards the same expression.
     static EXPRESSION_NESTING: std::cell::Cell<usize> = std::cell::Cell::new(0);
     static PREFIX_RUN: std::cell::Cell<usize> = std::cell::Cell::new(0);
+    static BINARY_OPERATORS: std::cell::Cell<usize> = std::cell::Cell::new(0);
 }
 
 /// Releases one level of a nesting counter when the recursive call returns,
@@ -95,6 +103,25 @@ impl<'l> CelCompiler<'l> {
         Ok(prog)
     }
 
+    /// Accounts for one more binary operator of the expression being compiled.
+    fn count_binary_operator(&mut self) -> CelResult<()> {
+        let seen = BINARY_OPERATORS.with(|c| {
+            c.set(c.get() + 1);
+            c.get()
+        });
+
+        if seen > MAX_BINARY_OPERATORS {
+            return Err(SyntaxError::from_location(self.tokenizer.location())
+                .with_message(format!(
+                    "Expression has more than {} binary operators",
+                    MAX_BINARY_OPERATORS
+                ))
+                .into());
+        }
+
+        Ok(())
+    }
+
     fn new_label(&mut self) -> u32 {
         let n = self.next_label;
         self.next_label += 1;
@@ -113,6 +140,11 @@ impl<'l> CelCompiler<'l> {
                     .into())
             }
         };
+
+        // the outermost expression starts a new count of binary operators
+        if EXPRESSION_NESTING.with(|c| c.get()) == 1 {
+            BINARY_OPERATORS.with(|c| c.set(0));
+        }
 
         if let Some(&TokenWithLoc {
             token: Token::Match,
@@ -489,6 +521,7 @@ impl<'l> CelCompiler<'l> {
         loop {
             if let Some(Token::OrOr) = self.tokenizer.peek()?.as_token() {
                 self.tokenizer.next()?;
+                self.count_binary_operator()?;
                 let (rhs_node, rhs_ast) = self.parse_conditional_and()?;
 
                 let jmp_node = CompiledProg::with_code_points(vec![
@@ -534,6 +567,7 @@ impl<'l> CelCompiler<'l> {
         loop {
             if let Some(Token::AndAnd) = self.tokenizer.peek()?.as_token() {
                 self.tokenizer.next()?;
+                self.count_binary_operator()?;
                 let (rhs_node, rhs_ast) = self.parse_relation()?;
 
                 let jmp_node = CompiledProg::with_code_points(vec![
@@ -577,6 +611,7 @@ impl<'l> CelCompiler<'l> {
             match self.tokenizer.peek()?.as_token() {
                 Some(Token::LessThan) => {
                     self.tokenizer.next()?;
+                    self.count_binary_operator()?;
 
                     let (rhs_node, rhs_ast) = self.parse_addition()?;
                     let range = current_ast.range().surrounding(rhs_ast.range());
@@ -599,6 +634,7 @@ impl<'l> CelCompiler<'l> {
                 }
                 Some(Token::LessEqual) => {
                     self.tokenizer.next()?;
+                    self.count_binary_operator()?;
                     let (rhs_node, rhs_ast) = self.parse_addition()?;
                     let range = current_ast.range().surrounding(rhs_ast.range());
 
@@ -620,6 +656,7 @@ impl<'l> CelCompiler<'l> {
                 }
                 Some(Token::EqualEqual) => {
                     self.tokenizer.next()?;
+                    self.count_binary_operator()?;
                     let (rhs_node, rhs_ast) = self.parse_addition()?;
                     let range = current_ast.range().surrounding(rhs_ast.range());
 
@@ -641,6 +678,7 @@ impl<'l> CelCompiler<'l> {
                 }
                 Some(Token::NotEqual) => {
                     self.tokenizer.next()?;
+                    self.count_binary_operator()?;
                     let (rhs_node, rhs_ast) = self.parse_addition()?;
                     let range = current_ast.range().surrounding(rhs_ast.range());
 
@@ -662,6 +700,7 @@ impl<'l> CelCompiler<'l> {
                 }
                 Some(Token::GreaterEqual) => {
                     self.tokenizer.next()?;
+                    self.count_binary_operator()?;
                     let (rhs_node, rhs_ast) = self.parse_addition()?;
                     let range = current_ast.range().surrounding(rhs_ast.range());
 
@@ -683,6 +722,7 @@ impl<'l> CelCompiler<'l> {
                 }
                 Some(Token::GreaterThan) => {
                     self.tokenizer.next()?;
+                    self.count_binary_operator()?;
                     let (rhs_node, rhs_ast) = self.parse_addition()?;
                     let range = current_ast.range().surrounding(rhs_ast.range());
 
@@ -704,6 +744,7 @@ impl<'l> CelCompiler<'l> {
                 }
                 Some(Token::In) => {
                     self.tokenizer.next()?;
+                    self.count_binary_operator()?;
                     let (rhs_node, rhs_ast) = self.parse_addition()?;
                     let range = current_ast.range().surrounding(rhs_ast.range());
 
@@ -736,6 +777,7 @@ impl<'l> CelCompiler<'l> {
             match self.tokenizer.peek()?.as_token() {
                 Some(Token::Add) => {
                     self.tokenizer.next()?;
+                    self.count_binary_operator()?;
 
                     let (rhs_node, rhs_ast) = self.parse_multiplication()?;
                     let range = current_ast.range().surrounding(rhs_ast.range());
@@ -758,6 +800,7 @@ impl<'l> CelCompiler<'l> {
                 }
                 Some(Token::Minus) => {
                     self.tokenizer.next()?;
+                    self.count_binary_operator()?;
 
                     let (rhs_node, rhs_ast) = self.parse_multiplication()?;
                     let range = current_ast.range().surrounding(rhs_ast.range());
@@ -792,6 +835,7 @@ impl<'l> CelCompiler<'l> {
             match self.tokenizer.peek()?.as_token() {
                 Some(Token::Multiply) => {
                     self.tokenizer.next()?;
+                    self.count_binary_operator()?;
 
                     let (rhs_node, rhs_ast) = self.parse_unary()?;
                     let range = current_ast.range().surrounding(rhs_ast.range());
@@ -813,6 +857,7 @@ impl<'l> CelCompiler<'l> {
                 }
                 Some(Token::Divide) => {
                     self.tokenizer.next()?;
+                    self.count_binary_operator()?;
 
                     let (rhs_node, rhs_ast) = self.parse_unary()?;
                     let range = current_ast.range().surrounding(rhs_ast.range());
@@ -835,6 +880,7 @@ impl<'l> CelCompiler<'l> {
                 }
                 Some(Token::Mod) => {
                     self.tokenizer.next()?;
+                    self.count_binary_operator()?;
 
                     let (rhs_node, rhs_ast) = self.parse_unary()?;
                     let range = current_ast.range().surrounding(rhs_ast.range());
